@@ -1742,6 +1742,10 @@ static char *demangle_simple(char *str)
 		}
 	}
 
+	/* nothing was emitted (e.g. "_ZUt_"): do not return NULL */
+	if (dd.new == NULL)
+		return xstrdup(str);
+
 	if (has_prefix) {
 		char *p = NULL;
 
